@@ -10,21 +10,90 @@ TRUST = ("Trusted base: Kani 0.68 MIR->goto translation, CBMC 6.11 + CaDiCaL; th
          "bounds recorded in the evidence, unwinding assertions on; nothing is claimed beyond them.")
 
 CLAIMS = {
+ "C02": dict(
+    text="Bounded model checking of the real MQTT 3.1.1 client state machine: 19 inductive step harnesses (user publish / "
+         "subscribe / ping, broker PUBACK / PUBREC / PUBCOMP / PUBLISH / PUBREL / PINGRESP with arbitrary ids) from an "
+         "ARBITRARY state satisfying a representation invariant that every step re-establishes, inflight limit 1-3. Decides: no "
+         "step drops a held publish, release or parked collision; a collision released by PUBACK or PUBCOMP is recorded as "
+         "unacknowledged; solicited acks free exactly their slot. NOT decided: clean() with held publishes (crash points, replay "
+         "content) - CBMC > 48 GB - and the async EventLoop; MQTT 5 client.",
+    design="DESIGN.md sections 0, 3, 5",
+    technique="Kani/CBMC bounded model checking: inductive one-step harnesses over arbitrary invariant states of rumqttc::MqttState"),
  "C04": dict(
-    text="Bounded model checking of the real codec code: CBMC decides, for every value within the bounds, that "
-         "(1) the remaining-length varint of all four codec copies encodes/decodes every usize correctly (unbounded in "
-         "value: all 2^64 lengths, every width boundary), agrees with len_len and rejects > 268435455. "
-         "Right level: round-trip is a universally quantified statement over packet values; the solver covers the whole "
-         "value space of each bounded instance at once, which sampling cannot.",
-    design="DESIGN.md section 3 (C04)",
-    technique="Kani/CBMC bounded model checking of the compiled codec functions (SAT, CaDiCaL) against a reference encoder"),
+    text="Bounded model checking of the real codec code: (1) the remaining-length varint of all four codec copies for EVERY usize "
+         "(round trip, len_len, reference encoder, rejection above 268435455); (2) MQTT 3.1.1 fixed-size packets: client "
+         "encode->decode round trip with size / exact-consumption clauses and broker encoder == client encoder byte for byte. "
+         "NOT decided: PUBLISH and the other string-bearing packets, broker decoders, string-bearing packet round trips, MQTT 5 packet "
+         "bodies (harnesses written, do not finish).",
+    design="DESIGN.md sections 0, 3",
+    technique="Kani/CBMC bounded model checking of the compiled codec functions against a reference encoder and client/broker encoder differential"),
  "C05": dict(
-    text="Bounded model checking of check()/parse_fixed_header()/length() in all four decoders on a fully symbolic "
-         "8-byte buffer with symbolic visible length and symbolic max size, against a loop-free reference header "
-         "decoder: totality (no panic/overflow), never accepts an over-limit frame, asks for more bytes only while the "
-         "header or declared frame is incomplete and by the exact missing count, never frames beyond the declared length.",
+    text="Bounded model checking of check()/parse_fixed_header()/length() in all four decoders on a fully symbolic 8-byte buffer "
+         "with symbolic visible length and symbolic max size, against a loop-free reference header decoder: totality (no "
+         "panic/overflow), never accepts an over-limit frame, asks for more bytes only while the header or declared frame is "
+         "incomplete and by the exact missing count, never frames beyond the declared length (hence framing is chunking "
+         "independent). NOT decided: packet bodies.",
     design="DESIGN.md section 3 (C05)",
-    technique="Kani/CBMC bounded model checking of the decoders on symbolic byte buffers against a reference framing decoder"),
+    technique="Kani/CBMC bounded model checking of the decoders' framing layer on symbolic byte buffers against a reference framing decoder"),
+ "C07": dict(
+    text="Same inductive step harnesses as C02 (labels C07): packet ids of publish/subscribe/unsubscribe in 1..=max, cyclic "
+         "allocation, an unacknowledged slot is never overwritten, inflight == held publishes + pending releases <= max under "
+         "the event loop's admission guard (extracted from eventloop.rs on every run and compiled into the harness), a collision "
+         "is parked not sent, pending only while its id is held, resolved and cleared by the freeing PUBACK/PUBCOMP, an ack "
+         "reopens the window. NOT decided: MQTT 5 (receive-maximum), the async loop itself.",
+    design="DESIGN.md sections 2.5, 3",
+    technique="Kani/CBMC bounded model checking: inductive step harnesses + admission guard regenerated from source"),
+ "C09": dict(
+    text="Bounded model checking of the broker's outbound window leaf code: Tracker::try_ready full wake-up table; Outgoing "
+         "push_forwards / register_ack / register_pubrec / register_pubcomp as one-step harnesses from a cyclic-id-run pre-state "
+         "at a symbolic position of the 1..=100 cycle. NOT decided: everything in Router (that it honours free_slots(), resumes "
+         "without further stimulus, closes only the offending connection).",
+    design="DESIGN.md section 3 (C09)",
+    technique="Kani/CBMC bounded model checking: total table + inductive step on rumqttd::router::iobufs::Outgoing"),
+ "C10": dict(
+    text="Same inductive step harnesses as C02 (labels C10): every received packet is surfaced first and exactly once; QoS1 -> "
+         "PUBACK(id), QoS2 -> PUBREC(id), PUBREL of a known id -> PUBCOMP(id), none of them with manual_acks; unsolicited "
+         "PUBACK/PUBREC/PUBCOMP/PUBREL (any id incl. 0, max+1, 65535) -> Err(Unsolicited) with bit-identical bookkeeping, no "
+         "panic; exactly one Outgoing announcement per returned packet and none without. NOT decided: Network::readb batching "
+         "(async), MQTT 5.",
+    design="DESIGN.md section 3",
+    technique="Kani/CBMC bounded model checking: inductive step harnesses over arbitrary invariant states"),
+ "C11": dict(
+    text="PARTIAL: the step harnesses decide only the bookkeeping clean() rotates on (last acknowledged id recorded on every "
+         "solicited PUBACK, within the table). The retransmission order produced by clean() itself, 'pending first', and 'nothing "
+         "replayed without a session' are NOT decided (clean() with held publishes exceeds 48 GB under CBMC; the rest is async "
+         "EventLoop code pinned by text guards that turn a change into exit 2).",
+    design="DESIGN.md sections 0, 2.5, 3",
+    technique="Kani/CBMC bounded model checking of handle_incoming_puback bookkeeping; syntactic guards for the async glue"),
+ "C12": dict(
+    text="Bounded model checking of valid_filter / valid_topic / has_wildcards of client v4, client v5 and broker against "
+         "byte-level reference validators on ALL strings of 0..=5 bytes over {a, A, /, +, #, $, e-acute}. NOT decided: matches() "
+         "(harnesses written for all length pairs up to 4x4, one 2x2 instance needs > 400 s), its multi-byte first-character "
+         "panic (reproduced natively, see DESIGN 5).",
+    design="DESIGN.md section 3 (C12)",
+    technique="Kani/CBMC bounded model checking of the string validators against reference validators"),
+ "C13": dict(
+    text="Bounded model checking of CommitLog::readv / Segment::readv from invariant states built with the real Segment API "
+         "(layout case-split: 1-3 segments, 0-2 entries; cursor offset symbolic over everything the log can issue incl. stale; "
+         "len 0..=4; sizes symbolic) against a closed-form reference: exact retained suffix, order, own offsets, continuation, "
+         "caught-up flag, stale resume; fabricated cursors (any u64) never panic; a real history from CommitLog::new(1024, 1) "
+         "(two rotations + evictions) checks retention for the 1-segment limit. NOT decided: the append step from arbitrary "
+         "states and multi-segment retention histories (do not finish), more than 3 segments, DataLog.",
+    design="DESIGN.md section 3 (C13)",
+    technique="Kani/CBMC bounded model checking: shape-instantiated one-step harnesses with a closed-form reference"),
+ "C18": dict(
+    text="PARTIAL (ping flag protocol only): a ping while the previous one is unanswered -> AwaitPingResp (failure detected at "
+         "the second interval), PINGRESP clears the flag and the next ping is Ok (no false alarm), two pings during an "
+         "unresolved collision -> CollisionTimeout, the flag does not survive clean(). NOT decided: that the timer fires once "
+         "per keep-alive, keep-alive 0, connection timeout (tokio timers in async select).",
+    design="DESIGN.md section 3",
+    technique="Kani/CBMC bounded model checking of MqttState::outgoing_ping / handle_incoming_pingresp / clean"),
+ "C20": dict(
+    text="Bounded model checking of From<Notification> + V4::write on a forwarded PUBLISH carrying any subset of MQTT 5 "
+         "properties (encoded without panic, properties dropped) and of Unschedule never reaching the wire. NOT decided: "
+         "decoding the frames back, the MQTT 5 encoder side, cross-listener routing (Router).",
+    design="DESIGN.md section 3 (C20)",
+    technique="Kani/CBMC bounded model checking of the 3.1.1 encoder on router notifications"),
 }
 
 NA_COMMON = ("deciding mechanism is the Router event loop (HashMap<String,_>/Slab/flume/tracing/SystemTime, async tasks): "
@@ -43,15 +112,8 @@ NOT_APPLICABLE = {
  "C19": "admission is async socket code (mqtt_connect with time::timeout) plus Router::handle_new_connection; " + NA_COMMON,
 }
 # properties whose checks are planned in DESIGN.md but not built yet in this revision
-PENDING = {'C02': 'planned in DESIGN.md section 3, check not built yet in this revision of /verif (work in progress)',
- 'C07': 'planned in DESIGN.md section 3, check not built yet in this revision of /verif (work in progress)',
- 'C09': 'planned in DESIGN.md section 3, check not built yet in this revision of /verif (work in progress)',
- 'C10': 'planned in DESIGN.md section 3, check not built yet in this revision of /verif (work in progress)',
- 'C11': 'planned in DESIGN.md section 3, check not built yet in this revision of /verif (work in progress)',
- 'C12': 'planned in DESIGN.md section 3, check not built yet in this revision of /verif (work in progress)',
- 'C13': 'planned in DESIGN.md section 3, check not built yet in this revision of /verif (work in progress)',
- 'C18': 'planned in DESIGN.md section 3, check not built yet in this revision of /verif (work in progress)',
- 'C20': 'planned in DESIGN.md section 3, check not built yet in this revision of /verif (work in progress)'}
+PENDING = {
+}
 
 
 def manifest():
